@@ -15,6 +15,13 @@ pub fn run(t: &[&str]) -> String {
 }
 
 fn run_inner(t: &[&str]) -> Vec<u128> {
+    if t[0] == "conv" {
+        // conversions of an arbitrary weight: Cost::from(Weight), Weight::from(that cost)
+        let w: u64 = t[1].parse().unwrap();
+        let c = Cost::from(Weight::from_wu(w));
+        let cv: u128 = c.to_string().parse().unwrap();
+        return vec![cv, Weight::from(c).to_wu() as u128];
+    }
     let t = &t[1..]; // t[0] is the case kind
     let c: u32 = t[0].parse().unwrap();
     let cost = Cost::from_milliweight(c);
